@@ -22,6 +22,10 @@ type Repo struct {
 	// len(Records) (lets a check serve generated repository info without
 	// touching the records another command serves).
 	CountOverride *uint16
+	// MaxRead, if non-zero, is the most record bytes one Get SDR response can
+	// carry: a longer read is refused with 0xCA (cannot return number of
+	// requested data bytes), as BMCs with small message buffers do.
+	MaxRead int
 	// BeforeGetSDR, if set, runs before the k-th (1-based) Get SDR is answered.
 	BeforeGetSDR func(r *Repo, k int)
 }
@@ -178,6 +182,9 @@ func installDefaults(b *BMC) {
 		}
 		if cnt == 0xFF {
 			cnt = len(rec.Bytes) - off
+		}
+		if r.MaxRead > 0 && cnt > r.MaxRead {
+			return 0xCA, nil
 		}
 		if off > len(rec.Bytes) || off+cnt > len(rec.Bytes) {
 			return 0xCA, nil
